@@ -966,10 +966,19 @@ def gen_case_c31(seed, tier):
             multi.append(["//%s:all" % p])
         else:
             multi.append(["//..."])
+    same = rng.chance(0.35)
+    if same:
+        # everybody asks for the same thing (two terminals, a watcher and a CI script...): every target is
+        # contended, and with a cache one invocation's restore can meet another's reads
+        multi = [list(multi[0]) if multi[0] != [] else ["//..."] for _ in range(k)]
+        if rng.chance(0.6):
+            multi = [["//..."] for _ in range(k)]
+        if rng.chance(0.7):
+            spec["config"]["cache"] = "@CACHE@"
     nrun = 3 if tier == "quick" else 8
     runs = []
     for j in range(nrun):
-        runs.append({"seed": subseed(seed, "run%d" % j), "offsets": [rng.intn(60) if rng.chance(0.6) else 0 for _ in range(k)], "threads": rng.choice([1, 2, 4]), "prebuilt": rng.chance(0.25)})
+        runs.append({"seed": subseed(seed, "run%d" % j), "offsets": [rng.intn(60) if rng.chance(0.6) else 0 for _ in range(k)], "threads": rng.choice([1, 2, 4]), "prebuilt": (not same) and rng.chance(0.25)})
     return {"seed": seed, "spec": spec, "multi": multi, "runs": runs}
 
 
